@@ -84,6 +84,8 @@ struct Plan {
 	overwrite: bool,
 	growth: Option<usize>,
 	unfinished_reindex: bool,
+	/// the source is a crash image: its last transactions are only in a flushed, unapplied log
+	logs_pending: bool,
 	big: bool,
 	many: bool,
 	grid: usize,
@@ -174,6 +176,7 @@ fn plan_for(rng: &mut Rng, variant: u64) -> Plan {
 		overwrite,
 		growth,
 		unfinished_reindex,
+		logs_pending: !unfinished_reindex && rng.chance(1, 6),
 		big: rng.chance(2, 3),
 		many: rng.chance(1, 12),
 		grid,
@@ -185,6 +188,7 @@ struct Source {
 	thresholds: HashMap<u8, u32>,
 	index_bits: Vec<Option<u8>>,
 	pending_reindex: bool,
+	logs_pending: bool,
 }
 
 fn src_options(dir: &std::path::Path, p: &Plan, thresholds: &HashMap<u8, u32>) -> Options {
@@ -303,9 +307,30 @@ fn build_source(rng: &mut Rng, dir: &std::path::Path, p: &Plan, txs: usize, thor
 	let st = db.verif_status();
 	let index_bits: Vec<Option<u8>> = st.columns.iter().map(|c| c.index_bits).collect();
 	let pending_reindex = st.columns.iter().any(|c| !c.reindex_index_bits.is_empty());
+	let mut logs_pending = false;
+	if p.logs_pending {
+		// two more transactions that only reach a flushed log; the directory is then copied as it
+		// is (a crash image) and the copy becomes the source: migrate has to replay the log
+		for _ in 0..2 {
+			let tx = content.gen_tx(rng, 24, &all);
+			db.commit_changes(tx).map_err(|e| format!("commit: {}", e))?;
+		}
+		for _ in 0..4 {
+			db.process_commits().map_err(|e| format!("process_commits: {}", e))?;
+		}
+		db.flush_logs().map_err(|e| format!("flush_logs: {}", e))?;
+		let img = dir.with_extension("img");
+		pv::scratch::copy_dir(dir, &img).map_err(|e| format!("copy: {}", e))?;
+		db.close();
+		std::fs::remove_dir_all(dir).map_err(|e| format!("remove: {}", e))?;
+		std::fs::rename(&img, dir).map_err(|e| format!("rename: {}", e))?;
+		let _ = std::fs::remove_file(dir.join("lock"));
+		logs_pending = dbutil::list_files(dir).iter().any(|(n, l)| n.starts_with("log") && *l > 0);
+		return Ok(Source { content, thresholds, index_bits, pending_reindex, logs_pending })
+	}
 	dbutil::make_drop_legal(&db).map_err(|e| format!("make_drop_legal: {}", e))?;
 	db.close();
-	Ok(Source { content, thresholds, index_bits, pending_reindex })
+	Ok(Source { content, thresholds, index_bits, pending_reindex, logs_pending })
 }
 
 /// What column `c` must contain after migration into options `d`.
@@ -537,12 +562,15 @@ fn migrate_case(ctx: &Ctx, rep: &mut Report, case_seed: u64, variant: u64, grid_
 	if src.pending_reindex {
 		rep.count("src_closed_with_unfinished_reindex", 1);
 	}
+	if src.logs_pending {
+		rep.count("src_with_unreplayed_log", 1);
+	}
 	let mut violations: Vec<(String, String)> = vec![];
 	let mut evals = 0u64;
 	let result_dir = if p.overwrite { from.clone() } else { to_path.clone() };
 	// ---- source side
-	if !p.overwrite && src.pending_reindex {
-		// opening the source finishes the interrupted reindex: index files legitimately change;
+	if !p.overwrite && (src.pending_reindex || src.logs_pending) {
+		// opening the source finishes the interrupted reindex / replays the pending log: files legitimately change;
 		// the content of the source is compared below
 		rep.count("source_bytes_not_compared_pending_reindex", 1);
 	} else if !p.overwrite {
@@ -585,6 +613,10 @@ fn migrate_case(ctx: &Ctx, rep: &mut Report, case_seed: u64, variant: u64, grid_
 			evals += 1;
 			for f in column_files(&before, c) {
 				if src.pending_reindex && f.starts_with("index_") {
+					continue
+				}
+				if src.logs_pending {
+					// the replay changes the files of any column before they are copied
 					continue
 				}
 				match res.get(&f) {
